@@ -237,6 +237,7 @@ RULES = [
     ("src/psbt/finalizer.rs", r"^get_utxo$", r"index", r"", "arg:inputs.len() == unsigned_tx.input.len() is a structural invariant of a deserialised Psbt; the non_witness_utxo.output[vout] index was replaced by get() in /repo 82797344 (regression: psbt mutator non_witness_utxo-vout-out-of-range)"),
     ("src/miniscript/satisfy/mod.rs", r"^satisfy(_mall)?$", r"expect|unwrap", r"", "arg:since /repo c829870f an incompletable template yields an unavailable satisfaction (regression: psbt class, tap leaf with a raw pkh)"),
     ("src/miniscript/satisfy/mod.rs", r"^satisfy_self$", r"debug_assert", r"", "debug-only; contract between AssetProvider sizes and Satisfier signatures"),
+    ("src/miniscript/satisfy/sat_dissat.rs", r"^sat_dissat$", r"assert$", r"[lr]_dis.has_sig", "observed:panic:src/miniscript/satisfy/sat_dissat.rs:sat_dissat:assertion-failed-{l,r}-dis-has-sig (malleable satisfier, or_b / or_c / or_d over or_i(c:expr_raw_pkh(H unresolved),and_v(v:pk(A),pk(B))) with a signature for A; directed input class rawpkh-unresolved-under-d-child in robust classes sat and psbt; known finding, candidate repair notes/fixes/C11-sat-dissat-has-sig-assert.diff)"),
     ("src/miniscript/satisfy/sat_dissat.rs", r"^sat_dissat$", r"assert$", r"has_sig", "arg:or_b/or_c/or_d require a `d` (unique dissatisfaction) left child, typing gives dissat.has_sig = false; exercised by robust class `sat` (typed-but-insane scripts x asset subsets); satisfier model owned by C01/C02"),
     ("src/descriptor/sh.rs", r"", r"assert", r"", "arg:redeem scripts above 520 bytes are rejected at construction since /repo 5d25865d / 4c5160f8 (size accounting of uncompressed keys; regression input sh-redeem-521-bytes, reported by C07)"),
     ("src/util.rs", r"", r"expect", r"", "arg:redeem scripts above 520 bytes are rejected at construction since /repo 5d25865d / 4c5160f8 (regression input sh-redeem-521-bytes, reported by C07)"),
